@@ -12,9 +12,9 @@ pub const PER_BATCH: u64 = 300;
 
 pub fn plan(tier: &str, seed: u64) -> Vec<Batch> {
     let n = match tier {
-        "thorough" => 80,
+        "thorough" => 300,
         "dev" => 1,
-        _ => 8,
+        _ => 30,
     };
     let mut v = Vec::new();
     let mut unis = vec![UniCfg::k(), UniCfg::e()];
